@@ -16,6 +16,7 @@ import LA.Drive.Pass
 import LA.Drive.ZipEnc
 import LA.Drive.Unicode
 import LA.Drive.Entry
+import LA.Drive.Api
 open LA
 
 def engines : List (String × Engine) := [
@@ -34,7 +35,8 @@ def engines : List (String × Engine) := [
   ("pass", LA.PassDrive.engine),
   ("zipenc", LA.ZipEncDrive.engine),
   ("uni", LA.Unicode.engine),
-  ("ent", LA.Entry.engine)
+  ("ent", LA.Entry.engine),
+  ("api", LA.Api.engine)
 ]
 
 partial def loop (e : Engine) (h : IO.FS.Stream) (out : IO.FS.Stream) (s : e.σ) : IO Unit := do
